@@ -71,7 +71,7 @@ Ltac dom H :=
   | (if ?c then _ else _) = _ => let D := fresh "D" in destruct c eqn:D; [|discriminate]
   | _ => idtac
   end;
-  inversion H; subst; clear H.
+  injection H as <- <- <-.
 
 (** finish a case: the step is [upd o r] and [r] is known *)
 Ltac fin_upd E Ho :=
@@ -310,7 +310,7 @@ Proof.
     destruct (replace_impl_refines L HL s p c (buf o) p2 (N.min c2 (len o - p2))) as (s' & E & A);
       [assumption|lia|assumption|assumption|unfold M64 in *; lia|lia|].
     rewrite E. cbn [bind]. eexists _, _, _; split; [reflexivity|].
-    split; [|symmetry; apply (cut_abs _ Ho)]. rewrite A. unfold std_substr at 2. rewrite Lao.
+    split; [|symmetry; apply (cut_abs _ Ho)]. rewrite A. unfold std_substr. rewrite Lao.
     rewrite (sub_buf_abs o p2 _ Ho) by lia. reflexivity.
   - (* rep_ss *)
     cbn [step]. unfold upd, replace_sub. destruct (N.ltb_spec (nlen x) p2); [lia|].
@@ -318,7 +318,7 @@ Proof.
     destruct (replace_impl_refines L HL s p c (carr x) p2 (N.min c2 (nlen x - p2))) as (s' & E & A);
       [assumption|lia|assumption|assumption|unfold M64 in *; lia|rewrite nlen_carr; lia|].
     rewrite E. cbn [bind]. eexists _, _, _; split; [reflexivity|].
-    split; [|symmetry; apply (cut_abs _ Ho)]. rewrite A. unfold std_substr at 2.
+    split; [|symmetry; apply (cut_abs _ Ho)]. rewrite A. unfold std_substr.
     rewrite drop_carr_le by lia. reflexivity.
   - (* rep_c *)
     destruct (replace_impl_refines L HL s p c (carr cs) 0 (cstrlen cs)) as (s' & E & A);
